@@ -256,7 +256,7 @@ func NewCustomType(specCustom string, st InternalSchemaType) (CustomType, Import
 	}
 
 	dotIdx := strings.LastIndex(specCustom, ".")
-	if dotIdx >= 0 {
+	if dotIdx > slIdx {
 		// github.com/username/name.MyType
 		//                         ^
 		// OR
